@@ -26,7 +26,12 @@ func RunOn(ctx *report.Ctx, prop, dir string, v load.Variant) (pkgs []string, nf
 		pkgs = append(pkgs, load.Rel(pk.PkgPath))
 	}
 	f := facts.Build(p)
-	Registry[prop](&Env{P: p, F: f, C: ctx})
+	env := &Env{P: p, F: f, C: ctx}
+	Registry[prop](env)
+	env.buildCoverage()
+	if pkgs := dataTablesOf[prop]; len(pkgs) > 0 {
+		env.tableImmutabilityOf("table-immutability", true, pkgs...)
+	}
 	return pkgs, p.NFuncs, nil
 }
 
